@@ -8,6 +8,7 @@ import (
 	"pgregory.net/rapid"
 
 	"github.com/dappledger/AnnChain/gemmill/consensus/pbft"
+	"github.com/dappledger/AnnChain/gemmill/types"
 
 	"verif/internal/h"
 	"verif/internal/sim"
@@ -22,6 +23,9 @@ import (
 type RoundsCase struct {
 	Powers []int64  `json:"powers"`
 	Ops    []sim.Op `json:"ops"`
+	// ViaSwitch: every node enters consensus through ConsensusReactor.SwitchToConsensus (what a
+	// node with fast_sync enabled does once it has caught up - also on a fresh chain)
+	ViaSwitch bool `json:"viaSwitch,omitempty"`
 }
 
 var roundOps = []string{
@@ -45,7 +49,7 @@ func genRoundsCase(t *rapid.T) RoundsCase {
 			ps[i] = rapid.Int64Range(1, 1<<30).Draw(t, "p")
 		}
 	}
-	c := RoundsCase{Powers: ps}
+	c := RoundsCase{Powers: ps, ViaSwitch: rapid.IntRange(0, 2).Draw(t, "viaSwitch") == 0}
 	c.Ops = rapid.SliceOfN(rapid.Custom(func(t *rapid.T) sim.Op {
 		return sim.Op{K: rapid.SampledFrom(roundOps).Draw(t, "k"), N: rapid.IntRange(0, 63).Draw(t, "n"), A: rapid.IntRange(0, 1023).Draw(t, "a")}
 	}), 10, 250).Draw(t, "ops")
@@ -55,7 +59,7 @@ func genRoundsCase(t *rapid.T) RoundsCase {
 func runRoundsCase(c RoundsCase, x *h.Ctx) {
 	dir, doneDir := sim.TempDir("c16r-")
 	defer doneDir()
-	net := sim.New(sim.Config{Powers: c.Powers, Dir: dir, RepairProposer: true})
+	net := sim.New(sim.Config{Powers: c.Powers, Dir: dir, RepairProposer: true, ViaSwitch: c.ViaSwitch})
 	defer net.Close()
 	d := sim.NewDriver(net)
 	type hr struct{ h, r int64 }
@@ -64,11 +68,25 @@ func runRoundsCase(c RoundsCase, x *h.Ctx) {
 	maxRound, skipped := int64(0), false
 	lastRound := map[int]hr{}
 	var problem string
+	// the validator set a height starts with: taken the first time any replica is seen in the
+	// height (a replica enters a height at round 0 / NewHeight, before any round increment)
+	base := map[int64]*types.ValidatorSet{}
+	baseWho := map[int64]int{}
 	net.OnStep = func(n *sim.Node) {
 		if problem != "" {
 			return
 		}
 		rs := n.RS()
+		hv := n.CS.GetState().Validators
+		if b, ok := base[rs.Height]; !ok {
+			if rs.Round == 0 {
+				base[rs.Height] = hv.Copy()
+				baseWho[rs.Height] = n.ID
+			}
+		} else if !sameAccums(b, hv) {
+			problem = fmt.Sprintf("height-validator-set-differs-between-steps-or-replicas|node %d in height %d round %d step %v: its state's validator set for the height is %s; node %d entered the height with %s", n.ID, rs.Height, rs.Round, rs.Step, dumpSet(hv), baseWho[rs.Height], dumpSet(b))
+			return
+		}
 		if rs.Step < 2 { // NewHeight: the round has not been entered yet
 			return
 		}
@@ -91,6 +109,9 @@ func runRoundsCase(c RoundsCase, x *h.Ctx) {
 		who[k] = n.ID
 		// reference: the set the height started with, advanced k.r times one round at a time
 		ref := n.CS.GetState().Validators.Copy()
+		if b, ok := base[k.h]; ok {
+			ref = b.Copy()
+		}
 		for i := int64(0); i < k.r; i++ {
 			ref.IncrementAccum(1)
 		}
@@ -149,9 +170,18 @@ func runRoundsCase(c RoundsCase, x *h.Ctx) {
 	if d.Stats.Restarts > 0 {
 		x.Label("excluded:proposer-changes-after-persistence-roundtrip")
 	}
+	if c.ViaSwitch {
+		x.Label("entered-via-switch-to-consensus")
+	}
 	if maxRound >= 2 {
 		x.NonTrivial()
 	}
+}
+
+// sameAccums: same members, powers and accums (the proposer cache is not compared: it is not
+// persisted - recorded finding - and hook H3 restores it after restarts)
+func sameAccums(a, b *types.ValidatorSet) bool {
+	return sameContent(a, b)
 }
 
 func min64r(a, b int64) int64 {
